@@ -174,6 +174,13 @@ pub fn run(ctx: &Ctx) -> i32 {
         let wt = Weights { issue: 20, poll: 30, cancel: 2, dial_ok: 14, dial_fail: 0, hs_ok: 14, hs_fail: 0, release: 18, ready: 5, close: 9, takeover: 0, bg: 18, warm: 6, advance: 0, hold: 4, sleep: 0, h2_pct: 0, alpn_pct: 0, origins: 1 };
         total.merge(run_generated(ctx, &engine, "idle-list-pressure", move || case_strategy(wt, max_ops, cfg_small_idle_strategy()), ctx.cases(80_000, 2_000_000), 2000));
     }
+    if d.prop == "C04" || d.prop == "C03" || d.prop == "C14" {
+        // mixed-version churn on one origin: HTTP/1 and HTTP/2 requests, ALPN upgrades, failing dials and
+        // handshakes, peer closes and cancels - the histories in which the "HTTP/2 attempt in flight"
+        // mark changes hands (defect D15 and its relatives lived here)
+        let wt = Weights { issue: 22, poll: 30, cancel: 8, dial_ok: 10, dial_fail: 4, hs_ok: 10, hs_fail: 6, release: 10, ready: 10, close: 5, takeover: 0, bg: 14, warm: 8, advance: 0, hold: 3, sleep: 0, h2_pct: 60, alpn_pct: 15, origins: 1 };
+        total.merge(run_generated(ctx, &engine, "mixed-version-churn", move || case_strategy(wt, max_ops, cfg_plain_strategy()), ctx.cases(200_000, 4_000_000), 2000));
+    }
     if d.prop == "C04" {
         // end to end with the real hyper connections: one HTTP/2 connection per origin
         let e2e = crate::props::net::NetEngine { prop: "C04" };
